@@ -132,6 +132,56 @@ func runC01(tier string) int {
 			}
 		}
 	})
+	// Two scripts in one file: gotos of S may target a label in the middle of S2 and vice versa.
+	if !r.Expired() {
+		fam := c01Families()[2] // labels
+		maxN := 4
+		if tier == "thorough" {
+			maxN = 5
+		}
+		for n := 1; n <= maxN && !r.Expired(); n++ {
+			total := fam.Count(n)
+			r.Parallel(total, func(w int, i uint64) {
+				body := fam.Unrank(n, i)
+				sl := fam.Assign(body, "")
+				if len(sl.Gotos) == 0 {
+					return
+				}
+				back := "EXT"
+				if len(sl.Labels) > 0 {
+					back = sl.Labels[0]
+				}
+				s2 := &model.Script{Name: "S2", Body: []model.Stmt{mcmd("a2"), {Kind: model.SLabel, Name: "X1"}, mcmd("b2"),
+					{Kind: model.SIf, Arms: []model.Arm{{Cond: mflag("Q2"), Body: []model.Stmt{{Kind: model.SGoto, Name: back}}}}}, mcmd("e2")}}
+				sc := &model.Script{Name: "S", Body: body}
+				scripts := []*model.Script{sc, s2}
+				model.ForEachGotoAssignmentTo(sl, []string{"X1", "S2", "EXT"}, func(variant int) {
+					src := model.Print(scripts)
+					r.Add("programs", 1)
+					r.Add("two_script_programs", 1)
+					for _, opt := range []bool{true, false} {
+						ok, _, st, v, out := checkScripts(scripts, src, opt, machine.Lazy, nil)
+						if !ok {
+							r.Add("rejected_wellformed", 1)
+							continue
+						}
+						r.Add("evaluations", 1)
+						addStats(r, st)
+						if st.Reads > 0 && st.Events >= 2 {
+							r.Add("nontrivial", 1)
+						}
+						if v != nil {
+							r.Report(harness.Violation{
+								Sig:     violationSig("C01", v) + ":two-scripts",
+								Summary: fmt.Sprintf("two scripts, labels n=%d idx=%d variant=%d optimize=%v: %s\n  source: %q", n, i, variant, opt, v, src),
+								Replay:  map[string]interface{}{"source": src, "optimize": opt, "reference_next_event": v.A.String(), "emitted_next_event": v.B.String(), "observable_prefix": v.Trace, "emitted_assembly": out},
+							})
+						}
+					}
+				})
+			})
+		}
+	}
 	seqLen := 3
 	if tier == "thorough" {
 		seqLen = 4
@@ -181,7 +231,7 @@ func runC01(tier string) int {
 		"reference lowering (model/lower.go) = meaning of the README for if/elif/else, while, do...while, break, continue, switch, labels, goto",
 		"operands are distinct per leaf, so every path is feasible (a superset of programs that reuse operands)")
 	return r.Finish(r.Get("evaluations"), r.Get("nontrivial"),
-		"every script body with exactly n nodes of each family (count+unrank, bijective, so cases are distinct by construction) x every goto assignment, plus every sequence of <= L statement templates (22 templates covering every construct), x optimize on/off; each case = full product exploration reference x emitted, all game states closed by a visited set; non-trivial = at least one environment branch point and >= 2 distinct observable events")
+		"every script body with exactly n nodes of each family (count+unrank, bijective, so cases are distinct by construction) x every goto assignment, plus every sequence of <= L statement templates (22 templates covering every construct), plus two-script files in which gotos cross between the scripts (targets: own labels, a label in the middle of the other script, the other script, an external name), x optimize on/off; each case = full product exploration reference x emitted, all game states closed by a visited set; non-trivial = at least one environment branch point and >= 2 distinct observable events")
 }
 
 // c01Shape is a coarse shape tag for findings matching.
